@@ -85,7 +85,14 @@ func (g *c03Gen) stmt(ind string, depth int, inFunc bool) {
 	switch g.pick("stmt", choices) {
 	case 0:
 		n := g.nameFor(true)
-		w("%s %s = %s;", bn.KwVar, n, g.u())
+		switch g.pick("initform", 6) {
+		case 0:
+			w("%s %s;", bn.KwVar, n) // declared without a value: holds nil
+		case 1:
+			w("%s %s = %s;", bn.KwVar, n, []string{"nil", bn.KwFalse, "0", "\"\""}[g.pick("falsy", 4)])
+		default:
+			w("%s %s = %s;", bn.KwVar, n, g.u())
+		}
 		g.scopes[len(g.scopes)-1][n] = true
 	case 1:
 		w("%s = %s;", g.nameFor(false), g.u())
@@ -243,7 +250,7 @@ func (c *Ctx) c03Program(s *Sub, sub, src string) {
 	}
 }
 
-var c03Small = map[string]int{"name": 2, "bias": 2, "n": 1, "truth": 2, "else": 2, "braced": 2, "arity": 2, "param": 2, "ret": 2, "global": 2, "fun": 1}
+var c03Small = map[string]int{"initform": 3, "falsy": 2, "name": 2, "bias": 2, "n": 1, "truth": 2, "else": 2, "braced": 2, "arity": 2, "param": 2, "ret": 2, "global": 2, "fun": 1}
 
 func TestC03(t *testing.T) {
 	Main(t, "C03", func(c *Ctx) {
